@@ -217,7 +217,9 @@ def ite_cases(cases, default):
     """
     sofar = default
     for c, v in reversed(list(cases)):
-        if is_true(v == sofar):
+        # a case that changes nothing; for floating-point values == is IEEE-754's comparison, under which -0.0
+        # equals 0.0, so they are compared as expressions
+        if v is sofar or (not isinstance(sofar, claripy.ast.FP) and is_true(v == sofar)):
             continue
         sofar = If(c, v, sofar)
     return sofar
